@@ -17,7 +17,7 @@ import re
 
 from . import absmap as am
 from . import core, tlaval, tlc, valgen
-from .common import try_abs
+from .common import try_abs, safe_repr
 
 PROBES = [None, True, 0, 1, 7, "ab", "a", "", [], [1], [1, "ab"], [1, "ab", 7], [[]], {}, {"a": 1},
           {"a": 1, "b": [1]}, {"a": "x"}, {"zz": 7}, [{"a": 1}], 1.5]
@@ -26,7 +26,7 @@ TAPES = [["lo"], ["hi"]]
 
 def snapshot(s):
     import d42
-    out = [repr(s)]
+    out = [safe_repr(s)]
     verdicts = []
     for p in PROBES:
         try:
@@ -36,7 +36,7 @@ def snapshot(s):
     out.append(tuple(verdicts))
     for t in TAPES:
         exc, v = valgen.real_fake(s, t)
-        out.append((exc, repr(v)))
+        out.append((exc, safe_repr(v)))
     ok, a = try_abs(am.a_schema, s)
     out.append(valgen.key(a) if ok else None)
     return out
@@ -251,7 +251,7 @@ def replay(hist):
     else:
         for a, b in zip(w.pool, w2.pool):
             try:
-                if not (a == b) or (a != b) or repr(a) != repr(b):
+                if not (a == b) or (a != b) or safe_repr(a) != safe_repr(b):
                     same = False
             except Exception:
                 same = False
